@@ -16,7 +16,7 @@ import sys
 
 ALWAYS_FAIL = "tests/test_construct/test_curves/test_interpolated.py::SplineInterpolatedCurveTests::test_length"
 FLAKY = "tests/test_optimize/test_optimizer.py::ComplexSketchTests::test_optimize"
-PROPS = [f"C{i:02d}" for i in range(1, 21) if i != 8]
+PROPS = [f"C{i:02d}" for i in range(1, 21)]
 
 
 def sh(cmd, cwd=None, env=None, timeout=900):
@@ -27,7 +27,7 @@ def sh(cmd, cwd=None, env=None, timeout=900):
 
 
 def suite(wt):
-    rc, out = sh(f"/venv/bin/python -m pytest -q -p no:cacheprovider -o addopts='' 2>&1 | tail -15", cwd=wt, env={"PYTHONPATH": f"{wt}/src"})
+    rc, out = sh(f"/venv/bin/python -m pytest -q -p no:cacheprovider -o addopts='' -n 6 2>&1 | tail -15", cwd=wt, env={"PYTHONPATH": f"{wt}/src"})
     failed = sorted({l.split()[1] for l in out.splitlines() if l.startswith("FAILED ")})
     return failed, out.strip().splitlines()[-1] if out.strip() else ""
 
